@@ -1,4 +1,5 @@
 import FxVerif.Proofs.C04Acct
+import FxVerif.Proofs.C04EscStep
 import FxVerif.Gen.C04
 /-!
 # C04 — bridge solvency: holdings + in-flight = initial + deposits − executed withdrawals; operations move only what
@@ -261,6 +262,84 @@ theorem holdings_are_sum_of_stated (cfg : Cfg) (ops : List Op) (s : State) (g u 
       have := ih s1 (z + stated s op u g)
       have h2 := op_moves_only_what_it_says cfg s s1 op g u hs
       omega
+
+/-! ### the bridge-side escrow of locking tokens -/
+
+/-- **escrow is exact**: for every configuration with the environment bound on deposits, every initial ledger and
+external supply, every operation sequence, every chain and every LOCKING token (FX, externally-owned pair): the chain's
+module account holds, in the locked asset (FX itself / the bridge denomination), exactly what it held initially plus the
+value in flight on that chain (pool + batches + outgoing bridge calls) plus the net amount that went out
+(circulating outside now − initially).  Together with `escrow_covers_in_flight` this is the solvency clause: what is
+queued, batched or in a bridge call is really there, on the chain it was sent through. -/
+theorem escrow_exact (cfg : Cfg) (hB : cfg.envBound = true) (L : Ledger) (e0 : Nat → Nat → Nat) (ops : List Op)
+    (c g : Nat) (k : Kind) (hk : cfg.kind g = some k) (hlock : k ≠ .moduleOwned) :
+    ((runOps cfg (initE L e0) ops).L.bal (lockAsset k g c) (M c) : Int) =
+      L.bal (lockAsset k g c) (M c) + chainInFlight g ((runOps cfg (initE L e0) ops).chains c)
+        + ((runOps cfg (initE L e0) ops).chains c).ext g - e0 c g := by
+  have h := runOps_emeasure cfg k g c hk hlock hB ops (initE L e0)
+  have h0 : chainInFlight g ((initE L e0).chains c) = 0 := by simp [initE, chainInFlight, poolValue]
+  simp only [emeasure, escObs, balObs, h0] at h
+  have h1 : ((initE L e0).chains c).ext g = e0 c g := rfl
+  have h2 : (initE L e0).L = L := rfl
+  rw [h1, h2] at h
+  omega
+
+/-- if initially the module account held at least what circulated outside (on Ethereum: the FX locked at genesis), then
+in every reachable state it holds at least the value in flight on that chain plus what circulates outside: a cancel, a
+refund and a deposit of a locking token always find their funds -/
+theorem escrow_covers_in_flight (cfg : Cfg) (hB : cfg.envBound = true) (L : Ledger) (e0 : Nat → Nat → Nat)
+    (ops : List Op) (c g : Nat) (k : Kind) (hk : cfg.kind g = some k) (hlock : k ≠ .moduleOwned)
+    (h0 : e0 c g ≤ L.bal (lockAsset k g c) (M c)) :
+    chainInFlight g ((runOps cfg (initE L e0) ops).chains c) + ((runOps cfg (initE L e0) ops).chains c).ext g ≤
+      (runOps cfg (initE L e0) ops).L.bal (lockAsset k g c) (M c) := by
+  have h := escrow_exact cfg hB L e0 ops c g k hk hlock
+  omega
+
+/-- a user's cancel of an FX transfer that is still in the pool is never refused: the refund flow finds the funds in the
+module account (for every history under the environment bound) -/
+theorem fx_cancel_never_lacks_escrow (cfg : Cfg) (hB : cfg.envBound = true) (L : Ledger) (e0 : Nat → Nat → Nat)
+    (ops : List Op) (c g u : Nat) (hk : cfg.kind g = some .fx) (h0 : e0 c g ≤ L.bal (.base g) (M c))
+    (tx : PoolTx) (htx : tx ∈ ((runOps cfg (initE L e0) ops).chains c).pool) (hg : tx.g = g) :
+    ∃ L', runFlow (bridgeTokenToBaseCoin .fx g c (U u) (tx.amount + tx.fee)) (runOps cfg (initE L e0) ops).L = .ok L' := by
+  have h := escrow_covers_in_flight cfg hB L e0 ops c g .fx hk (by decide) h0
+  simp only [lockAsset] at h
+  generalize runOps cfg (initE L e0) ops = s at h htx
+  have hp : tx.amount + tx.fee ≤ poolValue g (s.chains c).pool := by
+    generalize (s.chains c).pool = pool at htx
+    induction pool with
+    | nil => cases htx
+    | cons t ts ih =>
+      simp only [List.mem_cons] at htx
+      rcases htx with rfl | htx
+      · simp [poolValue, hg]
+      · have := ih htx; simp only [poolValue, List.map_cons, List.sum_cons] at this ⊢; omega
+  have hb : ¬ s.L.bal (.base g) (M c) < tx.amount + tx.fee := by
+    simp only [chainInFlight] at h; omega
+  simp [bridgeTokenToBaseCoin, depositBridgeToken, conversionCoin, runFlow, applyPrim, hb]
+
+/-- configuration for the non-vacuity examples: 0 = FX on chain 0, 3 = externally-owned on chain 0, environment bound on -/
+def cfgE : Cfg where
+  kind := fun g => match g with | 0 => some .fx | 3 => some .externalOwned | _ => none
+  onChain := fun g c => match g, c with | 0, 0 => true | 3, 0 => true | _, _ => false
+  envBound := true
+
+/-- 100 FX locked in the module account of chain 0 (they circulate outside), user 0 holds 1000 FX -/
+def ledgerE : Ledger where
+  bal := fun a x => if a = .base 0 ∧ x = U 0 then 1000 else if a = .base 0 ∧ x = M 0 then 100 else 0
+  supply := fun a => if a = .base 0 then 1100 else 0
+  owner := fun _ => none
+
+/-- non-vacuity of `escrow_exact` / `escrow_covers_in_flight` / `fx_cancel_never_lacks_escrow` / the batch theorems: a
+send, a batch request at the minimum-fee boundary, a second send, a deposit from outside and an execution reach a state
+with a transfer in the pool, value circulating outside and the escrow equation holding with all terms non-zero; a
+deposit of more than circulates outside is rejected by the environment bound -/
+example :
+    let s := runOps cfgE (initE ledgerE (fun c g => if c = 0 ∧ g = 0 then 100 else 0))
+      [.send 0 0 0 5 1, .batch 0 0 0 1 true, .send 0 0 0 7 2, .deposit 0 0 1 30 false, .executed 0 0 1]
+    (decide (chainInFlight 0 (s.chains 0) = 9 ∧ (s.chains 0).ext 0 = 76 ∧ s.L.bal (.base 0) (M 0) = 85 ∧
+        (s.chains 0).pool.length = 1 ∧ s.withdrawn 0 = 6 ∧ s.deposited 0 = 30) &&
+      (match step cfgE s (.deposit 0 0 1 77 false) with | .error .invalid => true | _ => false) &&
+      (match step cfgE s (.deposit 0 0 1 76 false) with | .ok _ => true | _ => false)) = true := by decide
 
 /-! ### witnesses (each replayed on the real app by the scripted prefix of the harness) -/
 
